@@ -474,6 +474,20 @@ mod exec {
             }
         }
 
+        // Like display_escape, but for the word in command position, where
+        // the shell would recognize an unquoted reserved word.
+        fn display_escape_command(s: &str) -> Cow<'_, str> {
+            const RESERVED: [&str; 17] = [
+                "case", "coproc", "do", "done", "elif", "else", "esac", "fi", "for", "function",
+                "if", "in", "select", "then", "time", "until", "while",
+            ];
+            if RESERVED.contains(&s) {
+                Cow::Owned(format!("'{}'", s))
+            } else {
+                Exec::display_escape(s)
+            }
+        }
+
         /// Show Exec as command-line string quoted in the Unix style.
         pub fn to_cmdline_lossy(&self) -> String {
             let mut out = String::new();
@@ -498,7 +512,9 @@ mod exec {
                     }
                 }
             }
-            out.push_str(&Exec::display_escape(&self.command.to_string_lossy()));
+            out.push_str(&Exec::display_escape_command(
+                &self.command.to_string_lossy(),
+            ));
             for arg in &self.args {
                 out.push(' ');
                 out.push_str(&Exec::display_escape(&arg.to_string_lossy()));
